@@ -40,6 +40,16 @@ Theorem C09_keyword_read_refuted : exists ops,
   reads ops (snd (run Deep init ops)) <> reads ops (spec_run [] ops).
 Proof. exists keyword_witness. exact keyword_witness_differs. Qed.
 
+(* Outside the sequences quantified over, kept as the record of a repaired defect: before commit f4717ad a cached
+   getter's two halves (SELECT answered / row inserted into the cache) could enclose an update_* of the same row;
+   the read after that interleaving returns the row as it was before the update.  Since f4717ad getters and updates
+   run under one lock, i.e. atomically as [step] models them, and C09_coherent_partial applies to the resulting
+   sequence. *)
+Theorem C09_unserialized_race_refuted :
+  read_out (snd race_witness) <> klookup dkey_eqb (TPort, 1%N) (db (fst race_witness)) /\
+  klookup dkey_eqb (TPort, 1%N) (db (fst race_witness)) <> None.
+Proof. exact race_witness_stale. Qed.
+
 (* non-vacuity: a positional sequence with an update and nested caller mutations between reads; the model's
    answers are the updated / unmutated rows, and the pre-fix witness is answered correctly after the fix *)
 Example C09_coherent_example :
@@ -62,3 +72,4 @@ Print Assumptions C09_coherent_partial.
 Print Assumptions C09_isolated.
 Print Assumptions C09_alias_refuted.
 Print Assumptions C09_keyword_read_refuted.
+Print Assumptions C09_unserialized_race_refuted.
